@@ -112,6 +112,17 @@ fn rac_rule_spans() {
             }
         }
     }
+    // a document being typed (C01: "every prefix"): every sentence cut after each of its words (with and without the blank), and
+    // every character prefix of every 7th sentence
+    for (k, t) in RAC_LINT_CORPUS.iter().chain(extra.iter()).enumerate() {
+        let cs: Vec<char> = t.chars().collect();
+        for i in 1..cs.len() {
+            if cs[i] == ' ' || k % 7 == 0 {
+                texts.push(cs[..i].iter().collect());
+                if cs[i] == ' ' { texts.push(cs[..=i].iter().collect()); }
+            }
+        }
+    }
     // a number with more decimals than a formatter precision can hold
     texts.push(format!("It costs $1.{} today, or 2.{}$ tomorrow.", "0".repeat(70000), "5".repeat(66000)));
     let mut group = LintGroup::new_curated(FstDictionary::curated(), Dialect::American);
@@ -143,5 +154,5 @@ fn rac_rule_spans() {
             }
         }
     }
-    println!("RAC-OK rule_spans cases={} nontrivial={} bound=rule-test-sentences-x-3-positions+white-space-variants", cases, nontrivial);
+    println!("RAC-OK rule_spans cases={} nontrivial={} bound=rule-test-sentences-x-3-positions+white-space-variants+word-boundary-prefixes", cases, nontrivial);
 }
